@@ -2,7 +2,7 @@
    Statements only; the proofs are in LiteralProofs.v, ParserProofs.v, CdcnProofs.v, Grammar.v. *)
 From Coq Require Import String.
 From Verif Require Import Base Params Value Lexer Literals Parser LexerProofs ParserProofs CdcnProofs LiteralProofs ParseRun Grammar Complete LexBridge LexBridge2 LexBridge3 StripInv LexRender.
-From Verif Require GrammarLit GrammarTextProofs.
+From Verif Require GrammarLit GrammarTextProofs ErrorTokens ParserPrefix ParserPrefixStrip GrammarReject.
 From Verif Require Import GrammarText.
 Close Scope string_scope.
 Open Scope Z_scope.
@@ -259,9 +259,31 @@ Theorem C11_text_complete :
     parse_source fparse crank (gtext t n) = PValue v.
 Proof. exact GrammarTextProofs.text_complete. Qed.
 
-(* a literal WITHOUT an exact value is rejected with the diagnostic for its token (line 1, position
-   2): as the only item of a list in any context, and as the key of the only association.
-   (General position: the parser on a proper prefix of a derivation is not characterised yet.) *)
+(* a literal WITHOUT an exact value is rejected with the diagnostic for its token.
+   GENERAL POSITION (GrammarReject.v, ParserPrefix.v): [bad_at fparse crank l t pre] = the literal l occurs in
+   the tree t — as an item of an inline or multi-line list, first or later, as a key or as the value of
+   an association, at any nesting —, pre = the tokens of t in front of that occurrence, and everything
+   in front of it has a value (keys and earlier items at every level: gdenote of each is Some).  Then the
+   outcome is the diagnostic for THAT token, at the line and position the scanner reaches after pre —
+   never a value, never a diagnostic for an earlier or a later token.  Behind it:
+   ParserPrefix.prefix_bad_literal, the parser on a proper prefix of a derivation (inductive viable
+   prefixes vstop / astop / cstop, one constructor per position of the grammar at which the item in
+   progress stands, the items in front whole derivations) followed by a token parse_intrinsic rejects. *)
+Theorem C11_prefix_bad_literal :
+  forall (fparse : list Z -> option Z) (crank : val -> val -> option comparison) (b : token),
+    ParserPrefix.badlit fparse b -> forall ts r : list token, ParserPrefix.lstopc fparse crank b ts ->
+    parse_tokens fparse crank (ts ++ r) = PSyntax b.
+Proof. exact ParserPrefix.prefix_bad_literal. Qed.
+
+Theorem C11_inexact_literal_rejected_anywhere :
+  forall (fparse : list Z -> option Z) (crank : val -> val -> option comparison) (t : gtree) (l : glit)
+         (pre : list rtok) (n : nat),
+    wf_gtree t = true -> GrammarReject.bad_at fparse crank l t pre -> wf_lit l = true -> lit_value fparse l = None ->
+    parse_source fparse crank (gtext t n) =
+    PSyntax (mkTok (lit_type l) (lit_text l) (fst (snd (ErrorTokens.place_pre pre 1 1))) (snd (snd (ErrorTokens.place_pre pre 1 1)))).
+Proof. exact GrammarReject.inexact_literal_rejected_anywhere. Qed.
+
+(* the two special cases proved first: the only item of a list in any context, the key of the only association *)
 Theorem C11_inexact_literal_rejected :
   forall (fparse : list Z -> option Z) (crank : val -> val -> option comparison) (l : glit) (c : gctx) (n : nat),
     wf_lit l = true -> lit_value fparse l = None ->
@@ -344,6 +366,26 @@ Example C11_ex_inexact_literals :
   = PSyntax (mkTok TRune (zs "'\ud800'") 1 2).
 Proof. vm_compute. repeat split; reflexivity. Qed.
 
+(* an inexact literal deep inside: the second item of a List that is the value of the second entry of a
+   multi-line Catalog — bad_at holds, and the diagnostic (line 3, position 14) by running both models *)
+Definition gx_bad : glit := GInt GNoSign (zs "99999999999999999999").
+Definition gx_bad_tree : gtree :=
+  GMulti [(4%nat, GAssoc (GStr [PChar 97]) 1 (GLit GNil));
+          (4%nat, GAssoc (GRune (PChar 98)) 1 (GInline (GLit GZero) [(1%nat, GLit gx_bad); (1%nat, GLit (GBool true))] CList))] 0 CCatalog.
+Example C11_ex_inexact_anywhere :
+  (exists pre, GrammarReject.bad_at (fun _ => None) (default_crank []) gx_bad gx_bad_tree pre) /\
+  wf_gtree gx_bad_tree = true /\ lit_value (fun _ => None) gx_bad = None /\
+  parse_source (fun _ => None) (default_crank []) (gtext gx_bad_tree 1) = PSyntax (mkTok TInteger (zs "99999999999999999999") 3 14).
+Proof.
+  split.
+  - eexists. unfold gx_bad_tree.
+    eapply GrammarReject.ba_multi with (before := [(4%nat, GAssoc (GStr [PChar 97]) 1 (GLit GNil))]) (after := []); [vm_compute; reflexivity|].
+    eapply GrammarReject.ba_val; [vm_compute; reflexivity|].
+    eapply GrammarReject.ba_later with (before := []) (after := [(1%nat, GLit (GBool true))]); [vm_compute; reflexivity|reflexivity|].
+    apply GrammarReject.ba_lit.
+  - vm_compute. repeat split; reflexivity.
+Qed.
+
 Print Assumptions C11_parse_depends_on_tokens.
 Print Assumptions C11_calls_independent.
 Print Assumptions C11_literal_exact.
@@ -388,3 +430,5 @@ Print Assumptions C11_text_scannable.
 Print Assumptions C11_text_complete.
 Print Assumptions C11_inexact_literal_rejected.
 Print Assumptions C11_inexact_key_rejected.
+Print Assumptions C11_prefix_bad_literal.
+Print Assumptions C11_inexact_literal_rejected_anywhere.
